@@ -1,6 +1,7 @@
 import PicoProofs.EndToEnd
 import PicoProofs.GoTieApi
 import PicoProofs.Tie
+import PicoModel.Sample
 /-
 C05 — Unmarshal succeeds only on well-formed input it has fully consumed.
 
@@ -66,5 +67,12 @@ theorem C05_error_never_lost (S : Schema) (hS : S.supported = true) (id : Nat) (
   have := hiff.mp he
   rw [hbad] at this
   cases this
+
+/-- non-vacuity: a prefix of whole records followed by a record cut in two; an input the
+specification rejects (a lone continuation byte); a conforming start value -/
+example : Spec.records 3 [8, 1] = some [⟨1, 0, [1]⟩] := by decide +kernel
+example : Spec.parse1 ([16] ++ [2]) = some (⟨2, 0, [2]⟩, []) := by decide +kernel
+example : Spec.specUnmarshal S1 0 [0xff] (Gen2.zeroMsg S1 0) = none := by decide +kernel
+example : Gen2.shMsg S1 0 (Gen2.zeroMsg S1 0) = true := by decide +kernel
 
 end Pico.Props
